@@ -9,6 +9,7 @@ import (
 	"go/constant"
 	"go/token"
 	"go/types"
+	"regexp"
 	"sort"
 	"strconv"
 	"strings"
@@ -599,6 +600,7 @@ func (e *Engine) handleLoop(fc *fnCtx, li *loopInfo, sIn *State) map[*ssa.BasicB
 	e.setHeapIn(sIn, iterName(li), "Int", "0")
 	// 1. dry run from a fully havoc'd state to find what the body modifies
 	e.dry++
+	dryStart, dryN0 := len(e.sc.lines), e.sc.n
 	dry := &State{Cells: map[ssa.Value]Val{}, Heaps: map[string]string{}, Epoch: e.newEpoch()}
 	dry.Reach = e.sc.declareConst("dryreach", "Bool")
 	syms := map[ssa.Value]string{}
@@ -619,6 +621,7 @@ func (e *Engine) handleLoop(fc *fnCtx, li *loopInfo, sIn *State) map[*ssa.BasicB
 	e.storeLog = savedLog
 	fc.returns = fc.returns[:savedReturns]
 	e.dry--
+	e.pruneDryRun(dryStart, dryN0, dry.Epoch)
 	modCells := map[ssa.Value]bool{}
 	modHeaps := map[string]bool{iterName(li): true}
 	havocAll := false
@@ -685,6 +688,12 @@ func (e *Engine) handleLoop(fc *fnCtx, li *loopInfo, sIn *State) map[*ssa.BasicB
 			if n == iterName(li) {
 				e.sc.assert("(>= " + fresh + " 0)")
 			}
+		}
+	}
+	// whatever a variable holds at the loop head has been allocated by then
+	for _, k := range cellKeys {
+		if v := head.Cells[k]; v.GoT != nil {
+			e.loadFacts(head, v, v.GoT)
 		}
 	}
 	for _, inv := range invs {
@@ -1407,4 +1416,39 @@ func (e *Engine) checkReturnAsserts(fc *fnCtx, st *State, ret *ssa.Return) {
 		env.curBlock = ret.Block()
 		e.addObl(fc.fn, "assert", "["+key+"] "+cl.Text, ret.Pos(), st.Reach, e.trSpec(env, cl.E).T)
 	}
+}
+
+var bangNum = regexp.MustCompile(`![0-9]+`)
+var epochHeap = regexp.MustCompile(`\bH([0-9]+)_`)
+
+// pruneDryRun drops the path facts the dry run of a loop body left in the script: assertions that mention a symbol
+// created during the dry run (a numbered symbol >= n0 or a heap constant of an epoch >= ep0). Nothing after the dry run
+// refers to those symbols except through definitions, which are kept (declarations, define-funs, and assertions of
+// the form (= sym term) that define a declared constant). Dropping assertions can only make later obligations harder
+// to prove, never easier.
+func (e *Engine) pruneDryRun(start, n0, ep0 int) {
+	if e.dry > 0 || start >= len(e.sc.lines) {
+		return // nested dry run: the enclosing one prunes
+	}
+	mentions := func(ln string) bool {
+		for _, m := range bangNum.FindAllString(ln, -1) {
+			if k, err := strconv.Atoi(m[1:]); err == nil && k >= n0 {
+				return true
+			}
+		}
+		for _, m := range epochHeap.FindAllStringSubmatch(ln, -1) {
+			if k, err := strconv.Atoi(m[1]); err == nil && k >= ep0 {
+				return true
+			}
+		}
+		return false
+	}
+	kept := e.sc.lines[:start:start]
+	for _, ln := range e.sc.lines[start:] {
+		if strings.HasPrefix(ln, "(assert ") && !strings.HasPrefix(ln, "(assert (= ") && mentions(ln) {
+			continue
+		}
+		kept = append(kept, ln)
+	}
+	e.sc.lines = kept
 }
